@@ -44,13 +44,15 @@ def run(ctx):
         ref = par.addObject(ch, nm)
         m = d.call('pkg_addobject', sx_str(par.folder), '(' + ' '.join(sx_str(t_) for t_ in taken) + ')', 'None' if nm is None else '(Some %s)' % sx_str(nm))
         ctx.corr('addObject folder/reference', {'parent_folder': par.folder, 'sibling_folders': taken, 'name': nm}, [sx_to_pystr(m[0]), sx_to_pystr(m[1])], [ch.folder, ref])
-        try: data = h.save()
+        try:
+            data = h.save()
+            if i % 3 == 2: data = h.save()        # the same document saved again: the second package is judged
         except Exception as e:
             ctx.oracle_cases += 1
             ctx.violation('save-raised', {'history': C03.describe(h)}, repr(e)[:300], 'a package', {'exception': type(e).__name__}); continue
         PC.corr_package(ctx, h.root, data, 'C16')
         pk = P.read_package(data)
-        case = {'history': C03.describe(h)}
+        case = {'history': C03.describe(h), 'saved': 2 if i % 3 == 2 else 1}
         for dsub in h.docs[1:]:
             if dsub.settings.childNodes and C03.reachable(h.root, dsub) and dsub.folder[1:] + '/settings.xml' not in pk['members']:
                 ctx.violation('object-settings-lost', dict(case, object=dsub.folder), sorted(m for m in pk['members'] if m.startswith(dsub.folder[1:] + '/')), 'settings.xml in the folder of the object', {})
